@@ -115,7 +115,10 @@ func checkC31(c *Ctx) (string, []string) {
 		bad := ""
 		for m := 0; m < 4 && bad == ""; m++ {
 			present, valid := int64(m&1), int64(m>>1)
-			r, ok := runWithAtoms(hl, o, func(s string) (int64, bool) {
+			// atoms are named with helpers kept as calls: isValidTime itself is the atom, whatever wraps it is evaluated
+			oa := o
+			oa.inline = nil
+			r, ok := runWithAtoms(hl, oa, func(s string) (int64, bool) {
 				switch {
 				case s == "p0.PreimageLookup[p2]#1":
 					return present, true
